@@ -12,7 +12,7 @@ from eth_hash.auto import keccak  # noqa: E402
 import props.c12 as c12  # noqa: E402
 
 ID = "C13"
-LEAN_IMPORTS = ["PyTrie.Props.C13"]
+LEAN_IMPORTS = ["PyTrie.Props.C13", "PyTrie.Props.NonVacuity"]
 THEOREMS = [
     "PyTrie.Props.C13.branch_refusal",
     "PyTrie.Props.C13.branch_refusal_iff",
@@ -28,6 +28,10 @@ THEOREMS = [
     "PyTrie.Bin.bgetD_of_path",
     "PyTrie.Bin.bgetD_sound",
     "PyTrie.Bin.parseNode_encNode",
+    "PyTrie.Props.NonVacuity.branch_valid_witness",
+    "PyTrie.Props.NonVacuity.branch_sound_witness",
+    "PyTrie.Props.NonVacuity.bt_nc",
+    "PyTrie.Props.NonVacuity.bforged_nc",
 ]
 RULE = ("binary tries built by generated histories over fixed-length and prefix-related key pools; for every pool key, its "
         "byte prefixes, extensions and bit-neighbours: get_branch (node list or InvalidKeyError), if_branch_valid on the honest "
